@@ -389,6 +389,55 @@ def run_in_process(ctx, runs, tag="ip", timeout=180, same_dir=False):
     return out, None
 
 
+def same_world_twice(ctx, prop, n=2):
+    """a run is a function of the tests and the options: the same (calm) world run twice in one process - nothing
+    re-imported, the very same test and layer objects, whatever the first run left in module-level tables - gives the same
+    verdict, the same per-layer summaries and totals and the same lists of failing tests.  Called once by the checks of the
+    properties that speak about what a run executes and reports."""
+    import random
+    rng = random.Random(ctx.seed * 31 + sum(map(ord, prop)))
+    for i in range(n):
+        w = worlds.gen_world(rng, n_layers=rng.choice([2, 3]), tests_per_layer=(1, 3),
+                             kinds=["pass", "pass", "fail", "error", "skipBody", "subFail2", "skipDeco"], p_fault=0.0, p_write=0.2)
+        for l in w["layers"]:
+            for k_ in ("slowSetUp", "slowTearDown", "falsy"):
+                l.pop(k_, None)
+        for t in w["tests"]:
+            for k_ in ("rebind", "ownstream", "label", "doctest"):
+                t.pop(k_, None)
+            for p_ in parts_of(t):
+                p_.pop("close", None)
+        w.pop("sysPathObject", None)
+        o = {"verbose": 1}
+        if prop in ("C13", "C04", "C16") and i % 2 == 0:
+            o["buffer"] = True
+        if prop == "C16":
+            o["stopOnError"] = True
+        if prop in ("C12", "C03") and i % 2 == 1:
+            o["repeat"] = 2
+        res, err = run_in_process(ctx, [(w, o), (w, o)], tag="twice" + prop, same_dir=True)
+        ctx.count(("same-world-twice", prop, i), nontrivial=True, sample=None)
+        ctx.bump("same-world-twice-in-one-process")
+        if res is None:
+            ctx.notes.append("same-world-twice worker failed: %s" % err)
+            continue
+        a, b = res
+        pa, pb = worlds.parse_output(a.stdout), worlds.parse_output(b.stdout)
+        diffs = []
+        if a.exit != b.exit or a.exc != b.exc:
+            diffs.append("verdict %r/%r then %r/%r" % (a.exit, a.exc, b.exit, b.exc))
+        for key in ("summaries", "total", "fail_names", "err_names"):
+            if pa[key] != pb[key]:
+                diffs.append("%s %r then %r" % (key, pa[key], pb[key]))
+        na = sorted(e["t"] for e in a.events if e.get("ev") == "tstart")
+        nb = sorted(e["t"] for e in b.events if e.get("ev") == "tstart")
+        if na != nb:
+            diffs.append("tests started %r then %r" % (na, nb))
+        if diffs:
+            ctx.violation("the same world run twice in one process gives two different runs: " + "; ".join(diffs)[:600],
+                          {"world": w, "opts": o, "second_stdout": b.stdout[-1500:]}, signature="second-run-differs")
+
+
 def replay_case(obj):
     case = obj.get("case", {})
     if "world" not in case:
